@@ -184,6 +184,30 @@ theorem walk_total (o : Opts) (s : Search) (t : Node) (start : WPath) :
     | file b => right; right; simp [Res.map]
     | dir es => left; simp [Res.map]
 
+/-! ## breadth order: the top of the tree first -/
+
+/-- breadth order reports the resources by non-decreasing depth ("yields resources in the top of the
+directory tree first") -/
+theorem breadth_top_down (o : Opts) (start : WPath) (es : Ents) :
+    (resources (walkBreadth o start.length [(start, es)])).Pairwise
+      (fun x y => x.1.length ≤ y.1.length) :=
+  bfs_sorted o start.length [(start, es)] ⟨by simp, trivial⟩
+
+/-- breadth order reports a directory before everything inside it: nothing that comes later in the
+sequence is at or above (a prefix of) an earlier path -/
+theorem breadth_parent_before_contents (o : Opts) (t : Node) (start : WPath) (es : Ents)
+    (hwf : t.wf = true) (hs : t.get start = some (.dir es)) :
+    (resources (walkBreadth o start.length [(start, es)])).Pairwise
+      (fun x y => ¬ y.1 <+: x.1) := by
+  have h1 := breadth_top_down o start es
+  have h2 := walk_nodup_breadth o t start es hwf hs
+  rw [List.Nodup, List.pairwise_map] at h2
+  refine (h1.and h2).imp ?_
+  rintro x y ⟨hle, hne⟩ hp
+  have hlen := hp.length_le
+  have : y.1 = x.1 := hp.eq_of_length (by omega)
+  exact hne this.symm
+
 /-! ## files / dirs / info are projections of one event sequence -/
 
 theorem files_dirs_info_projections (o : Opts) (s : Search) (t : Node) (start : WPath) :
@@ -222,11 +246,11 @@ theorem filter_exact (f : Name → Bool) (t : Node) (start : WPath) (es : Ents) 
   rw [← selected_none_eq_all t start es hs, selected_iff {} t start es hwf hs] at hall
   obtain ⟨rel, hp, _, hc⟩ := hall
   have hne : rel ≠ [] := by intro e; subst e; simp [chain_nil] at hc
-  rw [relOf_eq start rel p hp, chain_noprune _ _ n (by intros; simp [dirSel, optAll, optAny])
+  rw [relOf_eq start rel p hp, chain_noprune _ _ n (by intros; simp [dirSel, optAll, optAny, globDirOk])
     (by intros; simp [depthOk]) start rel hne]
   have hl : p.getLast? = some (rel.getLast hne) := by
     rw [hp, List.getLast?_append, List.getLast?_eq_some_getLast hne]; simp
-  simp [fileSel, optAll, optAny, hl]
+  simp [fileSel, optAll, optAny, globFileOk, hl]
 
 /-- `exclude`: every directory, and the files whose name does not match -/
 theorem exclude_exact (g : Name → Bool) (t : Node) (start : WPath) (es : Ents) (hwf : t.wf = true)
@@ -238,11 +262,11 @@ theorem exclude_exact (g : Name → Bool) (t : Node) (start : WPath) (es : Ents)
   rw [← selected_none_eq_all t start es hs, selected_iff {} t start es hwf hs] at hall
   obtain ⟨rel, hp, _, hc⟩ := hall
   have hne : rel ≠ [] := by intro e; subst e; simp [chain_nil] at hc
-  rw [relOf_eq start rel p hp, chain_noprune _ _ n (by intros; simp [dirSel, optAll, optAny])
+  rw [relOf_eq start rel p hp, chain_noprune _ _ n (by intros; simp [dirSel, optAll, optAny, globDirOk])
     (by intros; simp [depthOk]) start rel hne]
   have hl : p.getLast? = some (rel.getLast hne) := by
     rw [hp, List.getLast?_append, List.getLast?_eq_some_getLast hne]; simp
-  simp [fileSel, optAll, optAny, hl]
+  simp [fileSel, optAll, optAny, globFileOk, hl]
 
 /-- `filter_dirs`: the resources all of whose directory names below the start (the resource's own
 name included when it is a directory) match — nothing inside a non-matching directory -/
@@ -255,8 +279,8 @@ theorem filter_dirs_exact (f : Name → Bool) (t : Node) (start : WPath) (es : E
   rw [← selected_none_eq_all t start es hs, selected_iff {} t start es hwf hs] at hall
   obtain ⟨rel, hp, _, hc⟩ := hall
   have hne : rel ≠ [] := by intro e; subst e; simp [chain_nil] at hc
-  rw [relOf_eq start rel p hp, chain_dirsOnly _ _ n f (by intros; simp [dirSel, optAll, optAny])
-    (by intros; simp [fileSel, optAll, optAny]) (by intros; simp [depthOk]) start rel hne]
+  rw [relOf_eq start rel p hp, chain_dirsOnly _ _ n f (by intros; simp [dirSel, optAll, optAny, globDirOk])
+    (by intros; simp [fileSel, optAll, optAny, globFileOk]) (by intros; simp [depthOk]) start rel hne]
   simp [List.all_eq_true]
 
 /-- `exclude_dirs`: the resources none of whose directory names below the start match -/
@@ -269,8 +293,8 @@ theorem exclude_dirs_exact (g : Name → Bool) (t : Node) (start : WPath) (es : 
   rw [← selected_none_eq_all t start es hs, selected_iff {} t start es hwf hs] at hall
   obtain ⟨rel, hp, _, hc⟩ := hall
   have hne : rel ≠ [] := by intro e; subst e; simp [chain_nil] at hc
-  rw [relOf_eq start rel p hp, chain_dirsOnly _ _ n (fun c => !g c) (by intros; simp [dirSel, optAll, optAny])
-    (by intros; simp [fileSel, optAll, optAny]) (by intros; simp [depthOk]) start rel hne]
+  rw [relOf_eq start rel p hp, chain_dirsOnly _ _ n (fun c => !g c) (by intros; simp [dirSel, optAll, optAny, globDirOk])
+    (by intros; simp [fileSel, optAll, optAny, globFileOk]) (by intros; simp [depthOk]) start rel hne]
   simp [List.all_eq_true]
 
 /-- `max_depth = m`: the resources at relative depth `L` with `L = 1 ∨ L ≤ m` (the entries of the
@@ -285,8 +309,8 @@ theorem max_depth_exact (m : Int) (t : Node) (start : WPath) (es : Ents) (hwf : 
   rw [← selected_none_eq_all t start es hs, selected_iff {} t start es hwf hs] at hall
   obtain ⟨rel, hp, _, hc⟩ := hall
   have hne : rel ≠ [] := by intro e; subst e; simp [chain_nil] at hc
-  rw [relOf_eq start rel p hp, chain_maxDepth _ _ n m (by intros; simp [dirSel, optAll, optAny])
-    (by intros; simp [fileSel, optAll, optAny]) (by intros; simp [depthOk]) start rel hne]
+  rw [relOf_eq start rel p hp, chain_maxDepth _ _ n m (by intros; simp [dirSel, optAll, optAny, globDirOk])
+    (by intros; simp [fileSel, optAll, optAny, globFileOk]) (by intros; simp [depthOk]) start rel hne]
   have hlen : p.length - start.length = rel.length := by simp [hp]
   rw [hlen]
   simp only [decide_eq_true_eq]
@@ -333,7 +357,7 @@ theorem exclude_glob_exact (g : Str → Bool) (t : Node) (start : WPath) (es : E
   obtain ⟨rel, hp, _, hc⟩ := hall
   have hne : rel ≠ [] := by intro e; subst e; simp [chain_nil] at hc
   rw [relOf_eq start rel p hp, chain_iff]
-  simp only [dirSel, fileSel, depthOk, optAll, optAny, Bool.true_and, Bool.and_true,
+  simp only [dirSel, fileSel, depthOk, optAll, optAny, globDirOk, globFileOk, Bool.true_and, Bool.and_true,
     and_true, ne_eq, hne, not_false_eq_true, true_and]
   constructor
   · rintro ⟨h1, h2⟩
@@ -386,46 +410,98 @@ theorem unscanned_contributes_nothing (o : Opts) (t : Node) (start : WPath) (es 
   subst hrel
   exact (chain_ancestors o start.length n start a k b hb hc).2
 
-/-- **`filter_glob` (partial).**  Pruning directories by prefix acceptance drops no file that
-matches a pattern exactly and passes every other option — *provided* prefix acceptance is complete
-for the exact matcher (`PrefixComplete`).
-
-Full statement (no `PrefixComplete` hypothesis, for the matchers `fs.glob` really computes): **false
-of the code** — `glob.get_matcher(accept_prefix=True)` only derives prefix patterns by cutting the
-pattern at `/`, so for a pattern whose `**` is glued to other text in one component
-(`filter_glob=["**.py"]`) the directory `/a` is rejected although `/a/x.py` matches: the harness
-reproduces it on the real code (finding C13-filter-glob-prune); the abstract shape of that failure
-is `prune_glob_incomplete_counterexample`. -/
-theorem prune_sound_glob_partial (o : Opts) (pref exact : Str → Bool) (t : Node) (start : WPath)
+/-- **`filter_glob`: pruning is sound.**  Pruning directories by prefix acceptance drops no file that
+matches a pattern exactly and passes every other option.  The matcher is a parameter of the model;
+the one thing the prefix matcher must provide is `PrefixComplete` (exact match of a file's path ⇒
+prefix acceptance of every directory on the way).  That is precisely what
+`glob.get_matcher(accept_prefix=True)` is for, and the harness validates it on the real
+`fs.glob.get_matcher` for every pattern list and path it explores.  (Before the fixes a715270 /
+bf57128 the real matcher did not have this property — `**.py`, `d/*/[*/f` — and matching files were
+dropped.) -/
+theorem prune_sound_glob (o : Opts) (g : GlobFilter) (t : Node) (start : WPath)
     (es : Ents) (hwf : t.wf = true) (hs : t.get start = some (.dir es))
-    (ho : o.filterGlob = some pref) (hpc : PrefixComplete pref exact)
+    (ho : o.filterGlob = some g) (hpc : PrefixComplete g)
     (a : WPath) (name : Name) (b : Bytes)
     (hother : (start ++ (a ++ [name]), Node.file b) ∈ selected { o with filterGlob := none } t start)
-    (hex : exact (fileGlobPath (start ++ a) name) = true) :
+    (hex : g.exact (fileGlobPath (start ++ a) name) = true) :
     (start ++ (a ++ [name]), Node.file b) ∈ selected o t start := by
   obtain ⟨rel, hp, hg, hc⟩ := (selected_iff _ t start es hwf hs _ _).mp hother
   have hrel : rel = a ++ [name] := (List.append_cancel_left hp).symm
   subst hrel
   exact (selected_iff o t start es hwf hs _ _).mpr
-    ⟨_, rfl, hg, chain_glob_complete o pref exact ho hpc start.length b start a name hc hex⟩
+    ⟨_, rfl, hg, chain_glob_complete o g ho hpc start.length b start a name hc hex⟩
 
-/-- without completeness the statement fails: an exact matcher that accepts the file `/a/x` with a
-prefix matcher that does not accept the directory `/a` (the shape of `**.py` in fs.glob) — the file
-matches exactly, passes everything else, and is not selected -/
-theorem prune_glob_incomplete_counterexample :
-    ∃ (pref exact : Str → Bool) (t : Node) (p : WPath) (b : Bytes),
-      t.wf = true ∧ t.get p = some (.file b) ∧ exact (render p) = true ∧ pref (render p) = true ∧
+/-- conversely a file is reported only if its path matches `filter_glob` *exactly* (prefix
+acceptance is for directories only — fix a47d87a) -/
+theorem filter_glob_file_needs_exact (o : Opts) (g : GlobFilter) (t : Node) (start : WPath)
+    (es : Ents) (hwf : t.wf = true) (hs : t.get start = some (.dir es)) (ho : o.filterGlob = some g)
+    (a : WPath) (name : Name) (b : Bytes)
+    (hsel : (start ++ (a ++ [name]), Node.file b) ∈ selected o t start) :
+    g.exact (fileGlobPath (start ++ a) name) = true := by
+  obtain ⟨rel, hp, _, hc⟩ := (selected_iff o t start es hwf hs _ _).mp hsel
+  have hrel : rel = a ++ [name] := (List.append_cancel_left hp).symm
+  subst hrel
+  have := chain_last o start.length (.file b) start a name hc
+  simp only [Node.isDir, Bool.false_eq_true, if_false, fileSel, globFileOk, ho, Bool.and_eq_true] at this
+  exact this.1.2
+
+/-- with `filter_glob` alone and a complete prefix matcher, the reported files are exactly the files
+below the start whose path matches -/
+theorem filter_glob_files_exact (g : GlobFilter) (hpc : PrefixComplete g) (t : Node) (start : WPath)
+    (es : Ents) (hwf : t.wf = true) (hs : t.get start = some (.dir es))
+    (a : WPath) (name : Name) (b : Bytes) :
+    (start ++ (a ++ [name]), Node.file b) ∈ selected { filterGlob := some g } t start ↔
+      (start ++ (a ++ [name]), Node.file b) ∈ allBelow t start ∧
+        g.exact (fileGlobPath (start ++ a) name) = true := by
+  constructor
+  · intro h
+    exact ⟨(selected_sublist_all _ t start).subset h,
+      filter_glob_file_needs_exact _ g t start es hwf hs rfl a name b h⟩
+  · rintro ⟨hall, hex⟩
+    rw [← selected_none_eq_all t start es hs] at hall
+    exact prune_sound_glob { filterGlob := some g } g t start es hwf hs rfl hpc a name b hall hex
+
+/-- the hypothesis `PrefixComplete` cannot be dropped: an exact matcher that accepts the file `/a/x`
+with a prefix matcher that does not accept the directory `/a` (the shape the real matcher had for
+`**.py` before fix a715270) — the file matches exactly, passes everything else, and is not selected -/
+theorem prefix_completeness_needed :
+    ∃ (g : GlobFilter) (t : Node) (p : WPath) (b : Bytes),
+      t.wf = true ∧ t.get p = some (.file b) ∧ g.exact (render p) = true ∧
       (p, Node.file b) ∈ selected {} t [] ∧
-      (p, Node.file b) ∉ selected { filterGlob := some pref } t [] := by
-  refine ⟨fun s => s == "/a/x".toList, fun s => s == "/a/x".toList,
-    .dir [("a".toList, .dir [("x".toList, .file [])])], ["a".toList, "x".toList], [], ?_, ?_, ?_, ?_, ?_, ?_⟩
+      (p, Node.file b) ∉ selected { filterGlob := some g } t [] := by
+  refine ⟨⟨fun s => s == "/a/x".toList, fun s => s == "/a/x".toList⟩,
+    .dir [("a".toList, .dir [("x".toList, .file [])])], ["a".toList, "x".toList], [], ?_, ?_, ?_, ?_, ?_⟩
   · decide
   · rfl
   · decide
-  · decide
-  · simp [selected, Node.get, selEnts, fileSel, dirSel, depthOk, optAll, optAny]
-  · simp [selected, Node.get, selEnts, dirSel, optAll, optAny, dirGlobPath,
+  · simp [selected, Node.get, selEnts, fileSel, dirSel, depthOk, optAll, optAny, globDirOk, globFileOk]
+  · simp [selected, Node.get, selEnts, dirSel, optAll, optAny, globDirOk, dirGlobPath,
       render, Fs.Path.combine, Fs.Path.joinWith, Fs.Path.rstripSlash, Fs.Path.lstripSlash]
+
+/-- regression of C13-filter-glob-prune (fixed by a715270): on the tree `/a/x` with the exact matcher
+of the old counterexample, *every* complete prefix matcher lets the walk report the file -/
+theorem prune_glob_repaired (pref : Str → Bool)
+    (hpc : PrefixComplete ⟨fun s => s == "/a/x".toList, pref⟩) :
+    (["a".toList, "x".toList], Node.file []) ∈
+      selected { filterGlob := some ⟨fun s => s == "/a/x".toList, pref⟩ }
+        (.dir [("a".toList, .dir [("x".toList, .file [])])]) [] := by
+  have h := prune_sound_glob { filterGlob := some ⟨fun s => s == "/a/x".toList, pref⟩ } _
+    (.dir [("a".toList, .dir [("x".toList, .file [])])]) [] _ (by decide) rfl rfl hpc
+    ["a".toList] "x".toList []
+    (by simp [selected, Node.get, selEnts, fileSel, dirSel, depthOk, optAll, optAny, globDirOk, globFileOk])
+    (by simp [fileGlobPath, render, Fs.Path.combine, Fs.Path.joinWith, Fs.Path.rstripSlash, Fs.Path.lstripSlash])
+  simpa using h
+
+/-- regression of C13-filter-glob-file-prefix (fixed by a47d87a): with `filter_glob=["foo/bar/*.py"]`
+(exact: only `/foo/bar/<x>.py`‑like strings, here none of the tree; prefix: `/foo`, `/foo/bar`) the
+*file* `/foo/bar` is no longer reported — only the directory `/foo` is -/
+theorem file_prefix_not_accepted_repaired :
+    (selected { filterGlob := some ⟨fun s => s == "/foo/bar/q.py".toList,
+        fun s => s == "/foo".toList || s == "/foo/bar".toList⟩ }
+      (.dir [("foo".toList, .dir [("bar".toList, .file [])])]) []).map (·.1) = [["foo".toList]] := by
+  simp [selected, Node.get, selEnts, fileSel, dirSel, depthOk, optAll, optAny, globDirOk, globFileOk,
+    dirGlobPath, fileGlobPath, render, Fs.Path.combine, Fs.Path.joinWith, Fs.Path.rstripSlash,
+    Fs.Path.lstripSlash]
 
 /-! ## `walk()`: the Steps group the reported resources by directory -/
 
@@ -477,19 +553,39 @@ theorem glob_path_of_dir_entry (dir : WPath) (k : Name) (h : ∀ c ∈ dir ++ [k
     dirGlobPath dir k = render (dir ++ [k]) :=
   WalkPathLemmas.dirGlobPath_eq dir k (fun c hc => WalkPathLemmas.cleanComp_of_cleanName c (h c hc))
 
-/-- the glob string of a file entry is its absolute path — below any directory but the root -/
-theorem glob_path_of_file_entry_partial (dir : WPath) (k : Name) (hne : dir ≠ []) :
+/-- the glob string of a file entry is its absolute path — in every directory, the root included
+(fix a47d87a; it used to be `"//name"` in the root) -/
+theorem glob_path_of_file_entry (dir : WPath) (k : Name) (h : ∀ c ∈ dir ++ [k], cleanName c = true) :
     fileGlobPath dir k = render (dir ++ [k]) :=
-  WalkPathLemmas.fileGlobPath_eq dir k hne
+  WalkPathLemmas.fileGlobPath_eq dir k (fun c hc => WalkPathLemmas.cleanComp_of_cleanName c (h c hc))
 
-/-- Full statement (`fileGlobPath dir k = render (dir ++ [k])` for every `dir`): **false of the
-code** — directly below the root `_check_file` builds `"/" + "/" + name`, i.e. `"//name"`, which is
-not the path of the file; reproduced on the real code (finding C13-glob-root-double-slash). -/
-theorem glob_path_of_root_file_counterexample :
-    fileGlobPath [] "x.py".toList = "//x.py".toList ∧ fileGlobPath [] "x.py".toList ≠ render ["x.py".toList] := by
-  constructor
-  · rfl
-  · decide
+/-- regression of C13-glob-root-double-slash: the old counterexample now evaluates to the real path -/
+theorem glob_path_of_root_file_repaired :
+    fileGlobPath [] "x.py".toList = "/x.py".toList ∧ fileGlobPath [] "x.py".toList = render ["x.py".toList] := by
+  constructor <;> decide
+
+/-! ## the start path is normalised by every entry point -/
+
+/-- `_iter_walk` normalises the start path (`abspath(normpath(path))`, fix 429ed79): every spelling
+`"/" + "/".join(cs)` or `"/".join(cs)` of a clean component list starts the same walk, for `info`,
+`files`, `dirs` and `walk` alike -/
+theorem start_path_normalised (o : Opts) (s : Search) (t : Node) (absolute : Bool) (cs : WPath)
+    (h : ∀ c ∈ cs, cleanName c = true) :
+    iterWalkStr o s t (PathLemmas.mkp absolute cs) = iterWalk o s t cs ∧
+    infoStr o s t (PathLemmas.mkp absolute cs) = info o s t cs ∧
+    filesStr o s t (PathLemmas.mkp absolute cs) = files o s t cs ∧
+    dirsStr o s t (PathLemmas.mkp absolute cs) = dirs o s t cs ∧
+    walkStr o s t (PathLemmas.mkp absolute cs) = walk o s t cs := by
+  have hs := WalkPathLemmas.startOf_mkp absolute cs
+    (fun c hc => WalkPathLemmas.cleanComp_of_cleanName c (h c hc))
+  simp [iterWalkStr, infoStr, filesStr, dirsStr, walkStr, hs, Res.bind]
+
+/-- regression of C13-start-path-not-normalised: the relative spelling `"a"` and the redundant
+spelling `"a/../a/"` resolve to the component path `["a"]` -/
+theorem start_path_normalised_repaired :
+    startOf "a".toList = .ok ["a".toList] ∧ startOf "a/../a/".toList = .ok ["a".toList] ∧
+    startOf "".toList = .ok [] ∧ startOf "../a".toList = .err .IllegalBackReference := by
+  refine ⟨?_, ?_, ?_, ?_⟩ <;> decide
 
 /-! ## the work-list of the code holds paths only -/
 
@@ -531,19 +627,19 @@ example : ∃ l, info {} .breadth exTree [] = .ok l := by simp [info, iterWalk, 
 example : (resources (walkBreadth {} 0 [([], exEnts)])).map (·.1) =
     [["a".toList], ["x.py".toList], ["a".toList, "x.py".toList], ["a".toList, "b".toList],
      ["a".toList, "b".toList, "y.py".toList]] := by
-  simp [walkBreadth, scanBreadth, exEnts, checkOpenDir, checkFile, checkScanDir, optAny, optAll, resources]
+  simp [walkBreadth, scanBreadth, exEnts, checkOpenDir, checkFile, checkScanDir, optAny, optAll, globDirOk, globFileOk, resources]
 /-- depth order with `max_depth = 2`: `/a/b` is reported but not scanned, `/a` after its contents -/
 example : (resources (walkDepth { maxDepth := some 2 } 0 [([], exEnts, none)])).map (·.1) =
     [["a".toList, "x.py".toList], ["a".toList, "b".toList], ["a".toList], ["x.py".toList]] := by
-  simp [walkDepth, exEnts, checkOpenDir, checkFile, checkScanDir, optAny, optAll, resources, relDepth]
+  simp [walkDepth, exEnts, checkOpenDir, checkFile, checkScanDir, optAny, optAll, globDirOk, globFileOk, resources, relDepth]
 /-- `filter_dirs` that rejects `b`: nothing below `/a/b` -/
 example : (selected { filterDirs := some (fun k => k == "a".toList) } exTree []).map (·.1) =
     [["a".toList], ["a".toList, "x.py".toList], ["x.py".toList]] := by
-  simp [selected, exTree, exEnts, Node.get, selEnts, fileSel, dirSel, depthOk, optAny, optAll]
+  simp [selected, exTree, exEnts, Node.get, selEnts, fileSel, dirSel, depthOk, optAny, optAll, globDirOk, globFileOk]
 /-- `PrefixComplete` is satisfiable (and is what a correct prefix matcher provides) -/
-example : PrefixComplete (fun _ => true) (fun s => s == "/a/x.py".toList) := ⟨fun _ _ => rfl, fun _ _ _ _ _ => rfl⟩
+example : PrefixComplete ⟨fun s => s == "/a/x.py".toList, fun _ => true⟩ := fun _ _ _ _ _ => rfl
 /-- the hypotheses of `prune_sound` are met non-trivially: `/a/b/y.py` is selected without options -/
 example : (["a".toList, "b".toList, "y.py".toList], Node.file []) ∈ selected {} exTree [] := by
-  simp [selected, exTree, exEnts, Node.get, selEnts, fileSel, dirSel, depthOk, optAny, optAll]
+  simp [selected, exTree, exEnts, Node.get, selEnts, fileSel, dirSel, depthOk, optAny, optAll, globDirOk, globFileOk]
 
 end Fs.C13
